@@ -553,6 +553,23 @@ def i1(ctx):
                         a[1].k == 'bound' and a[1].a[1] == func or _closure_calls(ctx, a[1], func))
         obs.append(Ob('I1', 'Deque.%s/via-index' % meth, ok, 'Deque.%s does not resolve the position with _index and '
                       'apply Cache.%s' % (meth, func), f.loc()))
+    # keyword arguments of a mapping's update()/constructor ARE items: dict.update(other=1) stores the key 'other'
+    # (the abc mixin takes its source positional-only).  A re-implementation that names the source parameter captures
+    # that keyword instead of storing it.
+    for cname in ('Index',):
+        ci = ctx.prog.classes.get(cname)
+        fn = ci.methods.get('update') if ci is not None else None
+        if fn is None:
+            obs.append(Ob('I1', '%s.update/keyword-items-not-captured' % cname, True, '', 'diskcache/persistent.py:1'))
+            continue
+        a = fn.node.args
+        named = [x.arg for x in a.args[1:]] + [x.arg for x in a.kwonlyargs]
+        ok = a.kwarg is None or not named
+        obs.append(Ob('I1', '%s.update/keyword-items-not-captured' % cname, ok,
+                      '%s.update takes keyword items (**%s) but also names the parameter(s) %s, which can be passed by '
+                      'keyword: update(%s=...) is taken as the source instead of storing the key %r as a dict does'
+                      % (cname, a.kwarg.arg if a.kwarg else '', named, named[0] if named else '', named[0] if named else ''),
+                      fn.loc()))
     return obs
 
 
